@@ -694,17 +694,29 @@ SPEC = {
     "module": "C19",
     "theorems": ["C19_query_partial", "C19_nesting_partial", "C19_nested_fields",
                  "C19_builder_side", "C19_spellings_agree", "C19_query_refuted", "C19_nesting_refuted",
+                 "C19_nesting_registered_refuted",
                  "C19_typing_refuted", "C19_typing_partial", "C19_typing_walk_partial", "C19_subfield_typing_partial",
                  "C19_not_analyzed_fields", "C19_object_fields", "C19_nested_spellings", "C19_object_spellings"],
     "correspond": correspond,
-    "statement": "under executable guards (coherent, walk_sane, F12b guard subfield_ok, F12/F12c guard anchor_survives) "
-                 "a mapped leaf queried in either spelling is never refused and gives exactly the expected JSON "
-                 "(C19_query_partial, proved); options m fed to the builder: both spellings of a mapped path give the same outcome, decided by "
+    "statement": "C19_query_partial (proved): a mapped leaf queried in either spelling is never refused and gives "
+                 "exactly the expected JSON, under ALL of these guards: wf_schema s (names without dots, distinct "
+                 "keys, only leaves have multi-fields ...); coherent s (walked fields with the same dotted name "
+                 "agree on being analysed); walk_sane s (a decidable sanity condition on the analyzer's walk - "
+                 "ASSUMED, not derived from wf_schema; evaluated on every generated description); subfield_ok anc d "
+                 "(F12b guard); anchor_survives s anc (F12 / F12c guard - a predicate on the MODELLED WALK "
+                 "iter_fields s, not on the raw description); every component of the path dot-free and non-empty "
+                 "(forallb nodot / nonempty_name); query word without wildcard; query nodes unnamed (in `spelling`). "
+                 "Non-vacuity: g_simple, and the legacy two-document-type mapping g_legacy2 "
+                 "(ex_query_partial_two_doctypes, a leaf of each document type). Options m fed to the builder: both spellings of a mapped path give the same outcome, decided by "
                  "not_analyzed_fields / the nested and object prefix sets (proved for every description); the clause "
                  "is term-level iff the walked field is not analysed text (proved on coherent descriptions; "
                  "multi-fields under the F12b guard); the full statement, its nesting clause and its typing clause "
-                 "are refuted (F12, F12b, F12c); equivalent spellings of field specifications give the same name and "
-                 "prefix sets (proved, up to the empty name)",
+                 "are refuted (C19_query_refuted / C19_nesting_refuted: F12; C19_typing_refuted: F12b; "
+                 "C19_nesting_registered_refuted: F12c - the nesting clause under the structural F12 guard "
+                 "anchor_registered is still false with two document types); equivalent spellings of a nested / "
+                 "object field specification (C19_nested_spellings, C19_object_spellings) conclude equality of the "
+                 "name sets and prefix sets of the builder and its checker, up to the empty name \"\" - there is no "
+                 "theorem on `build` for them, and spellings of `sub_fields` are not covered",
     "trusted_base": [
         "Coq 8.16.1 kernel (vm_compute used for the refuting witnesses, examples and correspondence)",
         "no axioms (Print Assumptions: closed under the global context)",
